@@ -107,8 +107,8 @@ theorem delivered_projection {cfg : Cfg} {c : ClassFrame} {avail : Nat} (hwf : w
     simp only [wellFormed, Bool.and_eq_true] at hwf; exact hwf.1.1.1
   exact readWith_proj hx (readWith_full hwf hle)
 
-example : ((fullEvents exClass).filterMap (proj exCfg)).length = 21 := by decide
-example : (fullEvents exClass).length = 43 := by decide
+example : ((fullEvents exClass).filterMap (proj exCfg)).length = 20 := by decide
+example : (fullEvents exClass).length = 36 := by decide
 
 /-! ## declining or re-masking an item does not disturb the other items -/
 
@@ -196,13 +196,14 @@ theorem accept_projection (cfg : Cfg) (t : ClassTree) :
   accept_proj cfg t
 
 /-- where replay and read project alike: `projA cfg` and `proj cfg` agree on every event when the class visitor asks for
-fields and methods and every code visitor asks for stack map frames and treats the two local variable tables alike -/
+fields and methods and every code visitor asks for stack map frames and treats the two local variable tables alike
+(`hne`: the tree holds no `Some(vec![])` local variable table — the reader never produces one) -/
 theorem accept_projection_as_read_partial (cfg : Cfg) (hf : cfg.fieldsI = true) (hm : cfg.methodsI = true)
     (hcode : ∀ i cm, codeMaskOf cfg i = some cm → cm .stackMapTable = true ∧ cm .lvt = cm .lvtt)
-    (t : ClassTree) :
+    (t : ClassTree) (hne : ∀ i, Ev.codeLocals i [] ∉ accept full t) :
     accept cfg t = (accept full t).filterMap (proj cfg) := by
   rw [accept_proj cfg t]
-  exact filterMap_projA_eq_proj cfg hf hm hcode _
+  exact filterMap_projA_eq_proj cfg hf hm hcode _ hne
 
 /-- **reader_ignores_member_interests_witness**: `ClassInterests.fields = false` is honoured by `ClassFile::accept`
 (no field is replayed) and ignored by the reader (the field is visited): read and replay of the same class differ for
@@ -219,8 +220,8 @@ theorem reader_ignores_member_interests_witness :
 from the reader but does receive them from `Code::accept` -/
 theorem accept_ignores_stack_map_interest_witness :
     let c : ClassFrame := { hdrOk := true, hdr := 10, h := 1, fields := [], attrs := [],
-      methods := [⟨2, [.code { len := 12 + 2 + (6 + 7), hdr := 12, maxs := 1, insns := 2, exc := 3,
-                               attrs := [⟨.stackMapTable, 7, 7, [4]⟩] }]⟩] }
+                            methods := [⟨2, [.code { len := 12 + 2 + (6 + 7), hdr := 12, maxs := 1, insns := 2,
+                                                     exc := 3, attrs := [⟨.stackMapTable, 7, 7, [4]⟩] }]⟩] }
     let cfg : Cfg := { full with method := fun _ => some { mask := allMask, code := true,
                                                            codeV := some (fun k => k != .stackMapTable) } }
     (readWith cfg c c.size).toOption.map (fun r => r.2.contains (Ev.codeInsns 0 none 2)) = some true ∧
@@ -231,7 +232,7 @@ theorem accept_ignores_stack_map_interest_witness :
 attributes come in `accept`'s fixed order instead of file order (here `Signature` before `SourceFile`) -/
 theorem accept_order_witness :
     let c : ClassFrame := { hdrOk := true, hdr := 10, h := 1, fields := [], methods := [],
-      attrs := [.leaf ⟨.sourceFile, 2, 2, [1]⟩, .leaf ⟨.signature, 2, 2, [2]⟩] }
+                            attrs := [.leaf ⟨.sourceFile, 2, 2, [1]⟩, .leaf ⟨.signature, 2, 2, [2]⟩] }
     fullEvents c = [.classBegin 1, .cAttr false .sourceFile [1], .cAttr false .signature [2],
                     .classFlags false false, .classEnd] ∧
     (build (fullEvents c)).map (accept full) = some [.classBegin 1, .classFlags false false,
